@@ -2,12 +2,15 @@ package c15
 
 import (
 	"math/big"
+	"os"
 	"regexp"
 	"sort"
 	"strings"
+	"time"
 	"unicode"
 
 	"verif/internal/c15/ref"
+	"verif/internal/fw"
 )
 
 // minimise shrinks a failing (control, arguments) pair greedily while the
@@ -16,9 +19,9 @@ import (
 // the smallest construct that fails rather than the composition it was
 // found in.
 func minimise(ctl string, args []ref.Val, kind string) (string, []ref.Val) {
-	budget := 400
+	budget := 500
 	cur := map[string]bool{}
-	for _, f := range features(ctl, args, judge(ctl, args)) {
+	for _, f := range features(ctl, args) {
 		cur[f] = true
 	}
 	// a candidate must fail the same way and must not contain a known-broken
@@ -29,15 +32,17 @@ func minimise(ctl string, args []ref.Val, kind string) (string, []ref.Val) {
 			return false
 		}
 		budget--
-		v := judge(c, a)
-		if v.kind != kind {
-			return false
-		}
-		fs := features(c, a, v)
+		// features need the oracle only; checking them before the real format
+		// is run keeps mis-scanned (possibly non-terminating) candidates away
+		// from it
+		fs := features(c, a)
 		for _, f := range fs {
 			if !cur[f] {
 				return false
 			}
+		}
+		if judge(c, a).kind != kind {
+			return false
 		}
 		cur = map[string]bool{}
 		for _, f := range fs {
@@ -45,8 +50,17 @@ func minimise(ctl string, args []ref.Val, kind string) (string, []ref.Val) {
 		}
 		return true
 	}
-	for round := 0; round < 40 && 0 < budget; round++ {
+	for round := 0; round < 60 && 0 < budget; round++ {
 		changed := false
+		// unused arguments first: cheap and they make every later step cheaper
+		for i := len(args) - 1; 0 <= i; i-- {
+			if a2 := dropArg(args, i); fails(ctl, a2) {
+				args, changed = a2, true
+			}
+		}
+		if changed {
+			continue
+		}
 		for _, cand := range ctlCandidates(ctl) {
 			if cand == ctl {
 				continue
@@ -324,7 +338,7 @@ var caseBoundary = regexp.MustCompile(`[^\pL\s]\pL`)
 // purely syntactic ones are read off the control string (and the control
 // strings handed to ~?); the ones that depend on argument values are read off
 // a trace of the oracle's own run.
-func features(ctl string, args []ref.Val, v verdict) []string {
+func features(ctl string, args []ref.Val) []string {
 	fs := map[string]bool{}
 	ctls := map[string]int{ctl: 0} // control string -> block depth it runs at
 	nonASCII := false
@@ -417,7 +431,7 @@ func features(ctl string, args []ref.Val, v verdict) []string {
 	}
 	_, _, _ = ref.Render(ctl, args, thePrinter, ref.Opts{Trace: trace})
 	for c, base := range ctls {
-		syntacticFeatures(c, base, v, fs)
+		syntacticFeatures(c, base, fs)
 	}
 	if nonASCII {
 		fs["non-ascii"] = true
@@ -425,7 +439,7 @@ func features(ctl string, args []ref.Val, v verdict) []string {
 	return sortedKeys(fs)
 }
 
-func syntacticFeatures(ctl string, base int, v verdict, fs map[string]bool) {
+func syntacticFeatures(ctl string, base int, fs map[string]bool) {
 	dirs, err := ref.Parse(ctl)
 	if err != nil {
 		return
@@ -506,12 +520,6 @@ func englishClasses(n *big.Int, ordinal bool) []string {
 	a := new(big.Int).Abs(n)
 	if 0 <= a.Cmp(ref.EnglishLimit) {
 		return nil
-	}
-	if 0 <= a.Cmp(pow(10, 18)) {
-		q := new(big.Int).Div(a, pow(10, 18))
-		if new(big.Int).Mod(q, big.NewInt(1000)).Sign() != 0 {
-			cs = append(cs, "quintillion")
-		}
 	}
 	thousand := big.NewInt(1000)
 	if 0 <= a.Cmp(thousand) && new(big.Int).Mod(a, thousand).Sign() == 0 {
@@ -619,14 +627,108 @@ func shape(ctl string, args []ref.Val) string {
 	return b.String()
 }
 
+// refine drops a feature that cannot explain what was observed: the
+// 'quantillion' misspelling explains a mismatch only if correcting the
+// spelling in slip's text gives the expected text. Everything from 10^18 up
+// carries that finding, so without this the range 10^18..10^66 would be blind.
+func refine(fs []string, v verdict) []string {
+	var out []string
+	for _, f := range fs {
+		if f == "english-quintillion" {
+			ok := false
+			if v.got.err == nil {
+				fixed := strings.ReplaceAll(v.got.text, "quantillion", "quintillion")
+				for _, w := range v.want {
+					if w == fixed {
+						ok = true
+					}
+				}
+			}
+			if !ok {
+				continue
+			}
+		}
+		out = append(out, f)
+	}
+	return out
+}
+
+// repairedConstructs were broken on the pinned tree and have been repaired in
+// /repo since (findings with status "fixed: ..."); they are back in the clean
+// stream and explain nothing any more.
+var repairedConstructs = map[string]bool{
+	"nested-same-block-then-directive": true, "nested-same-block-with-param": true, "nested-iteration-closed-by-colon": true,
+	"clause-separator-then-directive": true, "tilde-with-param-in-block": true, "english-quintillion": true,
+	"princ-of-empty-string": true,
+}
+
+var openSet map[string]bool
+
+// openConstruct tells whether the construct is listed as an open finding. The
+// file is read once per worker; it is regenerated by scripts/merge_findings.py
+// and may be caught half written, so an unreadable or C15-less file is retried
+// and finally replaced by the built-in list.
+func openConstruct(f string) bool {
+	if openSet == nil {
+		root := os.Getenv("VERIF_ROOT")
+		if root == "" {
+			root = "."
+		}
+		for try := 0; try < 20 && openSet == nil; try++ {
+			set := map[string]bool{}
+			for _, fd := range fw.LoadFindings(root+"/known_findings.json", "C15") {
+				if fd.Open() {
+					set[fd.Signature] = true
+				}
+			}
+			if 0 < len(set) {
+				openSet = set
+			} else {
+				time.Sleep(150 * time.Millisecond)
+			}
+		}
+		if openSet == nil {
+			openSet = map[string]bool{}
+			for _, p := range featurePriority {
+				if !repairedConstructs[p] {
+					openSet["known-construct="+p] = true
+				}
+			}
+		}
+	}
+	return openSet["known-construct="+f]
+}
+
+// emitting: candidate findings are being collected (VERIF_EMIT), so every
+// recognised construct names its signature whether listed yet or not.
+var emitting = os.Getenv("VERIF_EMIT") != ""
+
+var featurePriority = []string{
+	"quoted-param-char", "upper-case-V", "nested-same-block-with-param", "nested-iteration-closed-by-colon",
+	"nested-same-block-then-directive", "clause-separator-then-directive", "tilde-with-param-in-block", "caret", "radix-R",
+	"v-nil-on-simple-directive", "recursive-nil-arglist", "conditional-bignum", "tab-colinc-0", "tab-colinc",
+	"tab-default-colnum", "tab-in-block", "fresh-line-in-block", "english-lowest-group-000", "english-quintillion",
+	"english-round-tens", "english-ordinal-hundred", "non-integer-arg", "princ-of-empty-string", "case-word", "non-ascii",
+}
+
 func signature(ctl string, args []ref.Val, v verdict) string {
 	kind := v.kind
 	if kind == "" || kind == "unjudged" {
 		kind = "unstable"
 	}
-	if fs := features(ctl, args, v); 0 < len(fs) {
-		// the construct is the signature
-		return "known-construct=" + strings.Join(fs, "+")
+	if fs := refine(features(ctl, args), v); 0 < len(fs) {
+		// the construct is the signature; when several are present the one
+		// that breaks earliest (scanning before rendering) names it. Only
+		// constructs that are still listed as open findings count: once a
+		// finding is repaired and dropped, its construct explains nothing and
+		// the failure is booked on the next one, or reported by its shape.
+		for _, p := range featurePriority {
+			for _, f := range fs {
+				if f == p && (emitting || openConstruct(f)) {
+					return "known-construct=" + f
+				}
+			}
+		}
 	}
 	return "fail=" + kind + " shape=" + shape(ctl, args)
 }
